@@ -389,6 +389,27 @@ def run(fb, rep, tier):
             else:
                 rep.check(sp == want, 'R05.8', key, wh, how, '%s is looked up at a %s whose domain is the %ss: the index is not a %s index (out of range or the wrong factor whenever the two counts differ)' % (n.short, how, sp, want))
 
+    # ------------------------------------------------------------------ R05.10
+    # the dense result array of a query (coef) is addressed by row numbers / loop indices over the basis; the query's own argument (the
+    # position r or c that was asked for) is never an address in the result
+    rep.rule('R05.10', 'the dense result array of a basis query is never subscripted by the query\'s own position argument', floor=8)
+    k10 = 0
+    for f in fs:
+        outs = set(pn for pn, pt in f.params if pt.endswith('*') and not pt.startswith('const ') and pt.replace(' ', '') in ('double*',))
+        posp = set(pn for pn, pt in f.params if pt == 'int')
+        for n in f.nodes:
+            if n.k != 'ArraySubscriptExpr':
+                continue
+            b, ix = strip(n.kids[0]), strip(n.kids[1])
+            if b.k == 'DeclRefExpr' and b.dk == 'parm' and b.n in outs:
+                k10 += 1
+                bad = ix.k == 'DeclRefExpr' and ix.dk == 'parm' and ix.n in posp
+                rep.check(not bad, 'R05.10', '%s|%s[%s]#%d' % (f.short, b.n, render(ix)[:20], k10), '%s:%d' % (f.file, n.l), 'index %s' % render(ix)[:30],
+                          '%s[%s]: %s is the position that was asked for, not an address in the result vector (rows are addressed by their number, which differs from the basis position in general)'
+                          % (b.n, ix.n, ix.n))
+    if k10 < 8:
+        raise AnalysisBroken('R05.10: only %d subscripts of the result arrays found' % k10)
+
     # ------------------------------------------------------------------ R05.9
     # homogeneity: with a scaled LP the internal row / column vectors live in the scaled space; a sum or difference of such a product
     # and a raw element of a caller-supplied vector is only meaningful when no scaling is being undone (the element must be scaled first)
